@@ -8,7 +8,7 @@
 From Coq Require Import List Bool Arith Ascii String NArith ZArith.
 From UV.Base Require Import Order Res.
 From UV.Py Require Import PyStr.
-From UV.Schemes Require Import Common Generic LegacyOpenssl Gentoo GentooProofs Debian DebianProofs Semver SemverProofs Rpm Gem GemProofs.
+From UV.Schemes Require Import Common Generic LegacyOpenssl Gentoo GentooProofs Debian DebianProofs Semver SemverProofs Rpm Gem GemProofs Openssl.
 From UV.Ref Require Deb Semver Gentoo Openssl Rpm.
 Import ListNotations.
 
@@ -42,6 +42,12 @@ Proof. exact Openssl.legacy_matches_reference. Qed.
 Theorem C03_gem : forall n1 n2, gem_cmp (gem_build n1) (gem_build n2) = UV.Ref.Gem.ref_gem n1 n2.
 Proof. exact gem_matches_reference. Qed.
 
+(* openssl: every pre-3.0 release before every 3.x release; within a kind the order of that kind (above) *)
+Theorem C03_openssl_dispatch : forall x y,
+  ossl_cmp (OLeg x) (OSem y) = Lt /\ ossl_cmp (OSem y) (OLeg x) = Gt /\
+  (forall x', ossl_cmp (OLeg x) (OLeg x') = leg_cmp x x') /\ (forall y', ossl_cmp (OSem y) (OSem y') = semver_cmp y y').
+Proof. intros x y. repeat split. Qed.
+
 (* non-vacuity: concrete versions meet the hypotheses *)
 Example C03_domains_inhabited :
   (exists a b, deb_ctor (list_ascii_of_string "1:2.4.7-1ubuntu1~rc1") = Ok a /\ deb_ctor (list_ascii_of_string "2.4.7+dfsg-1A") = Ok b /\ dok a = true /\ dok b = true)
@@ -59,4 +65,5 @@ Print Assumptions C03_gentoo_pms.
 Print Assumptions C03_semver_precedence.
 Print Assumptions C03_legacy_openssl.
 Print Assumptions C03_gem.
+Print Assumptions C03_openssl_dispatch.
 Print Assumptions C03_domains_inhabited.
